@@ -56,6 +56,26 @@ template<typename T> struct FiSk: Sk {
   Sk* de(int, const uint8_t* p, size_t n) const override { return new FiSk(S::deserialize(p, n, SD(), std::equal_to<T>(), A(ARENA))); }
   Sk* de_is(int, std::istream& is) const override { return new FiSk(S::deserialize(is, SD(), std::equal_to<T>(), A(ARENA))); }
   size_t advertised_size(int) const override { return s->get_serialized_size_bytes(SD()); }
+  // layout (frequent_items_sketch_impl.hpp): 4 preamble longs (num_items u32 at byte 8), num_items weights (8 bytes each) from byte 32,
+  // then the items in the same, unspecified, hash-table order; int64 items are 8 bytes, strings are u32 length + bytes
+  static size_t item_len(const uint8_t* p, size_t avail) { if (std::is_same<T, std::string>::value) { if (avail < 4) return 0; size_t l = 4 + sim::load32le(p); return l <= avail ? l : 0; } return avail >= 8 ? 8 : 0; }
+  Bytes canonical(int, const Bytes& img) const override {
+    if (img.size() < 32 || img[0] != 4) return img;
+    const size_t n = sim::load32le(img.data() + 8);
+    if (32 + 8 * n > img.size()) return img;
+    std::vector<std::pair<Bytes, Bytes>> rows; size_t off = 32 + 8 * n;
+    for (size_t i = 0; i < n; i++) {
+      size_t l = item_len(img.data() + off, img.size() - off); if (l == 0) return img;
+      rows.push_back(std::make_pair(Bytes(img.begin() + static_cast<std::ptrdiff_t>(off), img.begin() + static_cast<std::ptrdiff_t>(off + l)), Bytes(img.begin() + static_cast<std::ptrdiff_t>(32 + 8 * i), img.begin() + static_cast<std::ptrdiff_t>(40 + 8 * i))));
+      off += l;
+    }
+    if (off != img.size()) return img;
+    std::sort(rows.begin(), rows.end());
+    Bytes out(img.begin(), img.begin() + 32);
+    for (auto& r : rows) out.insert(out.end(), r.second.begin(), r.second.end());
+    for (auto& r : rows) out.insert(out.end(), r.first.begin(), r.first.end());
+    return out;
+  }
 };
 template<typename T> struct FiFamily: Family {
   const char* name() const override { static std::string n = std::string("fi<") + NameOf<T>::s() + ">"; return n.c_str(); }
@@ -175,7 +195,7 @@ struct VouSk: Sk {
   void merge(const Sk& o) override { K r = static_cast<const VouSk&>(o).s->get_result(); s->update(r); }
   void merge_move(Sk& o) override { K r = static_cast<VouSk&>(o).s->get_result(); s->update(std::move(r)); }
   void reset() override { s->reset(); }
-  std::string obs(bool det_only) const override { K r = s->get_result(); return obs_varopt<T>(r, det_only); }
+  std::string obs(bool det_only) const override { ObsRandom guard; K r = s->get_result(); return obs_varopt<T>(r, det_only); }   // get_result() draws
   bool deterministic() const override { return false; }
   Bytes ser(int, unsigned h) const override { return to_bytes(s->serialize(h, SD())); }
   void ser_os(int, std::ostream& os) const override { s->serialize(os, SD()); }
@@ -260,6 +280,7 @@ struct BfSk: Sk {
     return o;
   }
   int n_variants() const override { return 3; }
+  bool variant_ok(int v) const override { return v != 2 || !s->is_empty(); }   // the library documents that an empty filter cannot be wrapped for writing
   bool has_stream_reader(int v) const override { return v == 0; }
   Bytes ser(int, unsigned h) const override { return to_bytes(s->serialize(h)); }
   void ser_os(int, std::ostream& os) const override { s->serialize(os); }
